@@ -43,9 +43,9 @@ func validRequest(a *aspec.ASpec, w wireOp, base string, rng *rand.Rand) driver.
 		}
 	}
 	rc.RawQuery = q.Encode()
-	switch w.op.Body.K {
+	switch rb := resolveBody(a, w.op.Body); rb.K {
 	case "json":
-		v := sampleValue(tlaSchema(a, *w.op.Body.Schema, 0), rng, 0)
+		v := sampleValue(tlaSchema(a, *rb.Schema, 0), rng, 0)
 		bs, _ := json.Marshal(v)
 		rc.Body, rc.HasBody = string(bs), true
 	case "raw":
